@@ -156,3 +156,85 @@ def run_delimiters(rep, g, rule="R-GRAMMAR.delims"):
             rep.ok(rule, name, G.GRAMMAR_REL, sh)
         else:
             rep.viol(rule, name, G.GRAMMAR_REL, "%s is %s, expected %s" % (name, sh, want_sh))
+
+
+# ---------------------------------------------------------------------------------------
+# R-GRAMMAR.hyphen: a hyphen inside a tag never eats a trim marker
+
+def _lit_set(e, depth=0):
+    """Finite set of strings an expression made of string literals, sequences and choices can match (None if not finite)."""
+    k = e["k"]
+    if k == "str":
+        return {e["v"]}
+    if k == "seq":
+        a, b = _lit_set(e["a"], depth + 1), _lit_set(e["b"], depth + 1)
+        if a is None or b is None:
+            return None
+        return {x + y for x in a for y in b}
+    if k == "choice":
+        a, b = _lit_set(e["a"], depth + 1), _lit_set(e["b"], depth + 1)
+        if a is None or b is None:
+            return None
+        return a | b
+    return None
+
+
+def _flatten_seq(e):
+    if e["k"] == "seq":
+        return _flatten_seq(e["a"]) + _flatten_seq(e["b"])
+    return [e]
+
+
+def _mentions_hyphen(e):
+    if e["k"] == "str":
+        return "-" in e["v"]
+    out = False
+    for key in ("a", "b", "e"):
+        if isinstance(e.get(key), dict):
+            out = out or _mentions_hyphen(e[key])
+    return out
+
+
+HYPHEN_USERS = {
+    "NON_WHITESPACE_CONTROL_HYPHEN": "the one place a hyphen is accepted inside names, guarded against the two closing trim markers",
+    "TagStart": "trim marker", "TagEnd": "trim marker", "ExpressionStart": "trim marker", "ExpressionEnd": "trim marker",
+    "IntegerLiteral": "sign of a number", "FloatLiteral": "sign of a number",
+}
+
+
+def run_hyphen(rep, g, rule="R-GRAMMAR.hyphen"):
+    """NON_WHITESPACE_CONTROL_HYPHEN = "-" not followed by what would make it the closing trim marker: its negative lookaheads
+    exclude exactly {"-}}", "-%}"}. No other rule mentions a bare "-" (a word-boundary or operator rule that names "-" would
+    treat the hyphen of `-%}` / `-}}` as its own)."""
+    r = g.rule("NON_WHITESPACE_CONTROL_HYPHEN")
+    if r is None:
+        rep.anchor_missing(rule, "grammar rule NON_WHITESPACE_CONTROL_HYPHEN")
+    else:
+        parts = _flatten_seq(r["e"])
+        negs = [p for p in parts if p["k"] == "neg"]
+        rest = [p for p in parts if p["k"] != "neg"]
+        excluded = set()
+        finite = True
+        for n_ in negs:
+            ls = _lit_set(n_["e"])
+            if ls is None:
+                finite = False
+            else:
+                excluded |= ls
+        if finite and excluded == {"-}}", "-%}"} and rest == [{"k": "str", "v": "-"}] and parts[-1] == {"k": "str", "v": "-"}:
+            rep.ok(rule, "NON_WHITESPACE_CONTROL_HYPHEN", G.GRAMMAR_REL, "`-` unless it starts `-}}` or `-%}`")
+        else:
+            rep.viol(rule, "NON_WHITESPACE_CONTROL_HYPHEN", G.GRAMMAR_REL,
+                     "the hyphen rule is %s: its lookaheads exclude %s instead of exactly `-}}` and `-%%}` — a hyphen directly before a closing delimiter "
+                     "can be taken as part of a name, so the trim marker is lost" % (G.Grammar.shape(r["e"]), sorted(excluded) if finite else "a non-literal set"))
+    bad = []
+    for name in sorted(g.rules):
+        if name in HYPHEN_USERS:
+            continue
+        if _mentions_hyphen(g.rules[name]["e"]):
+            bad.append(name)
+    for name in bad:
+        rep.viol(rule, "bare hyphen in " + name, G.GRAMMAR_REL,
+                 "rule %s names a bare `-`: inside a tag that hyphen may be the first character of `-%%}` / `-}}`; use NON_WHITESPACE_CONTROL_HYPHEN" % name)
+    if not bad:
+        rep.ok(rule, "hyphen users", G.GRAMMAR_REL, "only %s mention `-`" % sorted(HYPHEN_USERS))
